@@ -365,6 +365,28 @@ func tfSchema() *schema.BodySchema {
 					},
 				},
 				DependentBody: map[schema.SchemaKey]*schema.BodySchema{
+					// two-level selection: the label selects a body that has a key attribute of its own
+					labelDep(0, "remote_state"): {
+						Detail: "remote state",
+						Attributes: map[string]*schema.AttributeSchema{
+							"backend":   {IsRequired: true, IsDepKey: true, Constraint: schema.LiteralType{Type: cty.String}, Description: md("backend type"), SemanticTokenModifiers: lang.SemanticTokenModifiers{"tf-backend"}},
+							"workspace": {IsOptional: true, Constraint: schema.AnyExpression{OfType: cty.String}},
+						},
+					},
+					schema.NewSchemaKey(schema.DependencyKeys{
+						Labels:     []schema.LabelDependent{{Index: 0, Value: "remote_state"}},
+						Attributes: []schema.AttributeDependent{{Name: "backend", Expr: schema.ExpressionValue{Static: cty.StringVal("s3")}}},
+					}): {
+						Detail:   "remote state (s3)",
+						DocsLink: &schema.DocsLink{URL: "https://example.com/backends/s3"},
+						Attributes: map[string]*schema.AttributeSchema{
+							"backend":   {IsRequired: true, IsDepKey: true, Constraint: schema.LiteralType{Type: cty.String}},
+							"workspace": {IsOptional: true, Constraint: schema.AnyExpression{OfType: cty.String}},
+							"config": {IsOptional: true, SemanticTokenModifiers: lang.SemanticTokenModifiers{"tf-config"}, Constraint: schema.Object{Attributes: schema.ObjectAttributes{
+								"bucket": {IsRequired: true, Constraint: schema.AnyExpression{OfType: cty.String}},
+								"key":    {IsOptional: true, Constraint: schema.AnyExpression{OfType: cty.String}}}}},
+						},
+					},
 					labelDep(0, "aws_ami"): {
 						DocsLink: &schema.DocsLink{URL: "https://example.com/docs/d/aws_ami"},
 						Attributes: map[string]*schema.AttributeSchema{
@@ -592,6 +614,22 @@ data "aws_ami" "ubuntu" {
     name   = "name"
     values = ["ubuntu-*"]
   }
+}
+
+data "remote_state" "net" {
+  backend   = "s3"
+  workspace = var.region
+  config = {
+    bucket = "tf-state"
+    key    = "net/${var.region}"
+  }
+}
+
+data "remote_state" "other" {
+  backend = "gcs"
+}
+
+data "other" "y" {
 }
 
 resource "aws_instance" "web" {
